@@ -41,6 +41,11 @@ M = {
     "M26_sizeonly": ("src/sbdfstring.c", "\t\t\tif (out)\n\t\t\t{\n\t\t\t\t*out++ = REPLACEMENT_CHAR;\n\t\t\t}\n\n\t\t\t++result;\n\t\t}\n\t}\n\n\tif (out)\n\t{\n\t\t*out++ = 0;\n\t}\n\n\t++result;\n\n\treturn result;\n}\n\nint sbdf_convert_iso88591_to_utf8", "\t\t\tif (out)\n\t\t\t{\n\t\t\t\t*out++ = REPLACEMENT_CHAR;\n\t\t\t\t++result;\n\t\t\t}\n\t\t}\n\t}\n\n\tif (out)\n\t{\n\t\t*out++ = 0;\n\t}\n\n\t++result;\n\n\treturn result;\n}\n\nint sbdf_convert_iso88591_to_utf8", ["C19"], [], False),
     "M27_skip_rle_rows": ("src/valuearray.c", "\t\t\t\tint ignored_row_cnt;\n\t\t\t\terr = sbdf_read_int32(file, &ignored_row_cnt);\n\t\t\t\tif (!err)\n\t\t\t\t{\n\t\t\t\t\terr = sbdf_obj_skip_arr(file, byte_vt);\n\t\t\t\t}", "\t\t\t\terr = sbdf_obj_skip_arr(file, byte_vt);", ["C07"], [], False),
     "M28_dflt_dropped": ("src/tablemetadata.c", "\t\t\t\telse if (!sbdf_obj_eq(array[i - 1].meta->default_value, array[i].meta->default_value))", "\t\t\t\telse if (0 && !sbdf_obj_eq(array[i - 1].meta->default_value, array[i].meta->default_value))", ["C01"], [], False),
+    # the repairs of the audit round, broken again in ways their corpus lines do not replay
+    "M29_drop_one_buffer": ("src/internals.c", "\twhile (n > 0)\n\t{\n\t\tsize_t k = n < (long)sizeof(buf)", "\tif (n > 0)\n\t{\n\t\tsize_t k = n < (long)sizeof(buf)", ["C07"], ["C01"], False),
+    "M30_dupscan_adjacent": ("src/metadata.c", "\t\tfor (prev = head->first; prev != first; prev = prev->next)\n\t\t{\n\t\t\tif (!strcmp(first->name, prev->name))", "\t\tfor (prev = head->first; prev != first; prev = prev->next)\n\t\t{\n\t\t\tif (prev->next == first && !strcmp(first->name, prev->name))", ["C10"], [], False),
+    "M31_fifth_group_mask": ("src/internals.c", "(uch & 0x70)", "(uch & 0x40)", ["C16"], [], False),
+    "M32_skip_negative_ok": ("src/object.c", "\t\t\t\tif (skip < 0)\n\t\t\t\t{\n\t\t\t\t\treturn SBDF_ERROR_INVALID_SIZE;\n\t\t\t\t}\n", "\t\t\t\tif (skip < -4)\n\t\t\t\t{\n\t\t\t\t\treturn SBDF_ERROR_INVALID_SIZE;\n\t\t\t\t}\n", ["C09", "C07"], [], False),
     # harmless rewrites: no check may report
     "H01_growth_x2": ("src/internals.c", "cap = 1 + cap * 3 / 2;", "cap = 1 + cap * 2;", [], ["C11", "C14", "C01", "C05"], True),
     "H02_obj401_io": ("src/object.c", "if (fwrite(*data, 1, length, f) != length)\n\t\t\t\t\t\t{\n\t\t\t\t\t\t\treturn SBDF_ERROR_OUT_OF_MEMORY;", "if (fwrite(*data, 1, length, f) != length)\n\t\t\t\t\t\t{\n\t\t\t\t\t\t\treturn SBDF_ERROR_IO;", [], ["C13", "C01", "C03"], True),
@@ -81,7 +86,8 @@ def main():
                 print(n, "does not build or tests fail:", (b.stdout + t.stdout)[-300:].replace("\n", " "))
                 summary[n] = "invalid (build/tests)"
                 continue
-            r = sh(["python3", os.path.join(ROOT, "tools", "seedtest.py"), os.path.join(d, "patch.diff")] + expect + quiet)
+            r = sh(["python3", os.path.join(ROOT, "tools", "seedtest.py"), os.path.join(d, "patch.diff")] + expect + quiet,
+                   env=dict(os.environ, VERIF_SEED_WT="/tmp/own_seed_wt"))
             res = json.loads(r.stdout.strip().splitlines()[-1])
             caught = [p for p in expect if res[p]["violations"] > 0]
             missed = [p for p in expect if res[p]["violations"] == 0]
